@@ -1412,7 +1412,12 @@ func (e *Engine) callAssertHooks(st *State, fr *Frame, calleeName string, args [
 			for i, a := range args {
 				env.vars[fmt.Sprintf("arg%d", i)] = a
 			}
+			nerr, nnote := len(e.specErrors), len(e.notes)
 			g := e.evalSpecBool(st, e.entry, c.Expr, env)
+			if c.Optional && len(e.specErrors) > nerr {
+				e.specErrors, e.notes = e.specErrors[:nerr], e.notes[:nnote]
+				continue // (the assertion does not apply to a call of this shape)
+			}
 			name, where := e.siteName(fr, "call", pos, c.Args[0]+" "+c.Label)
 			e.oblige(st, name, "K5", c.Text, g, where, c.Props)
 		} else {
